@@ -34,7 +34,9 @@ _DIMS = {'0d': (), 'a': ('a',), 'b': ('b',), 'ab': ('a', 'b'), 'ba': ('a', 'b')}
 
 def _scalar_value(spec, i, j, gen, variant):
     """0-d operand of grid point (i, j) for generation ``gen`` (0 = first call, 1 = after the in-place update)."""
-    f = 1.0 + 0.173 * i + 0.0391 * j + 0.4 * gen
+    near_equal = variant >= 100  # elements that differ by a few parts per million only ("looks uniform" shortcuts)
+    variant = variant % 100
+    f = (1.0 + 3e-6 * i - 2e-6 * j + 0.4 * gen) if near_equal else (1.0 + 0.173 * i + 0.0391 * j + 0.4 * gen)
     if isinstance(spec, reg.A):
         base, bunit, variants = reg.KINDS[spec.kind]
         unit, dtype = variants[variant % len(variants)]
@@ -44,7 +46,11 @@ def _scalar_value(spec, i, j, gen, variant):
         base = reg.VEC_BASE[spec.kind]
         v = np.asarray(spec.values, dtype=float)
         # perturb direction and length, keep it away from degenerate configurations
-        w = v * f + np.array([0.013 * i, -0.021 * j, 0.0]) * (np.linalg.norm(v) + 1.0) * (0.0 if spec.kind == 'vacc' else 1.0)
+        if spec.kind == 'vacc':
+            w = v * f  # gravity keeps its direction (the reflectometry kernel demands gravity perpendicular to the beam)
+        else:
+            # generation 1 also changes the direction (a yaw about the vertical: stays perpendicular to gravity along y)
+            w = v * f + np.array([0.013 * i + 0.05 * gen, -0.021 * j, 0.0]) * (np.linalg.norm(v) + 1.0) * (1e-5 if near_equal else 1.0)
         return sc.vector(w, unit=base).to(unit=unit)
     if isinstance(spec, reg.Const):
         return spec.make2() if (gen == 1 and spec.make2 is not None) else spec.make()
@@ -231,6 +237,8 @@ def check_combo(rec, site_key, combo, variant=0, label=None, reuse=True):
         if ok:
             rec.cls('layout_ok' if gen == 0 else 'reuse_after_inplace_update_ok')
             rec.nontrivial += 1
+    if variant >= 100:
+        rec.cls('layout_nearly_equal_elements')
     if len(want_dims) == 2 and any(lay[n] == 'ba' for n in names):
         rec.cls('layout_transposed_operand')
     if any(set(_DIMS[lay[n]]) == {'a'} for n in names) and any(set(_DIMS[lay[m]]) == {'b'} for m in names):
@@ -295,6 +303,10 @@ def cases_for(sites, variants=(0,), chunk=25):
         for v in variants:
             for k in range(0, len(combos), chunk):
                 out.append({'kind': 'layout', 'site': site, 'combos': combos[k : k + chunk], 'variant': v})
+        # nearly equal elements (base variant only), for combinations in which some operand is an array
+        combos_arr = [c for c in combos if any(v != '0d' for v in c.values())]
+        for k in range(0, len(combos_arr), chunk):
+            out.append({'kind': 'layout', 'site': site, 'combos': combos_arr[k : k + chunk], 'variant': 100 + variants[0]})
         if site not in SKIP and not site.startswith('conversion.beamline.two_theta/unit'):
             for v in variants[:2]:
                 out.append({'kind': 'layout', 'site': site, 'combos': [], 'variant': v, 'big': True})
